@@ -26,7 +26,7 @@ TRUSTED = [
 ]
 ASSUMPTIONS = []
 RULE = ('user names over octets other than ":" and passwords over arbitrary octets, lengths 0..300 dense around the 57-octet encodebytes threshold (total 50..64) and its multiples, '
-	'every single octet value in each position; mutated/garbage field values for the parser; one element whose credentials are changed (params, username / password properties) and that is composed after every change; non-trivial = round trip through Authorization and Proxy-Authorization via Headers; distinct by composed value')
+	'every single octet value in each position; mutated/garbage field values for the parser; credentials handed over as text (non-ASCII, encoded as UTF-8); a second element built from the parameters of the first and then changed; one element whose credentials are changed (params, username / password properties) and that is composed after every change; non-trivial = round trip through Authorization and Proxy-Authorization via Headers; distinct by composed value')
 
 
 def cases(rng, tier):
@@ -58,6 +58,10 @@ def cases(rng, tier):
 		yield ('b64', data)
 
 
+	# credentials handed over as text (encoded as UTF-8 by the element)
+	for _ in range(n // 8):
+		alpha = u'abcXYZ09 _\u00e4\u00f6\u00fc\u00df\u20ac\u4e2d\U0001f600'
+		yield ('text', u''.join(rng.choice(alpha) for _ in range(rng.choice((0, 1, 4, 12)))).replace(u':', u''), u''.join(rng.choice(alpha + u':') for _ in range(rng.choice((0, 1, 6, 30)))))
 	# ONE element whose credentials are changed and that is composed again (a client retrying after a 401): every composed
 	# field stands for the credentials of that moment
 	for _ in range(n // 4):
@@ -114,6 +118,8 @@ def model_lines(case):
 	if k == 'rt':
 		comp = impl_compose('Authorization', case[1], case[2])
 		return ['basic.compose %s %s' % (hx(case[1]), hx(case[2])), 'basic.parse %s' % hx(comp)]
+	if k == 'text':
+		return ['basic.compose %s %s' % (hx(case[1].encode('utf-8')), hx(case[2].encode('utf-8')))]
 	if k == 'seq':
 		return ['basic.compose %s %s' % (hx(u), hx(p)) for u, p in seq_states(case[1])]
 	if k == 'parse':
@@ -141,6 +147,11 @@ def impl_lines(case):
 	if k == 'rt':
 		comp = impl_compose('Authorization', case[1], case[2])
 		return [hx(comp), parse_line(comp)]
+	if k == 'text':
+		try:
+			return [hx(bytes(element_cls('Authorization')('Basic', {'username': case[1], 'password': case[2]})))]
+		except Exception as e:
+			return ['err ' + exc_name(e)]
 	if k == 'seq':
 		return [hx(v) for v in seq_impl(case[1])]
 	if k == 'parse':
@@ -163,6 +174,17 @@ def parse_line(value):
 
 
 def oracle(case):
+	if case[0] == 'text':
+		u, p = case[1].encode('utf-8'), case[2].encode('utf-8')
+		for name in ('Authorization', 'Proxy-Authorization'):
+			try:
+				v = bytes(element_cls(name)('Basic', {'username': case[1], 'password': case[2]}))
+				back = impl_parse(name, v)
+			except Exception as ex:
+				return {'what': '%s: text credentials: compose/parse raised %s: %s' % (name, exc_name(ex), ex), 'user': u.hex(), 'password': p.hex(), 'finding': None}
+			if v != b'Basic ' + base64.b64encode(u + b':' + p) or back != (u, p):
+				return {'what': '%s: text credentials composed as %r, parsed back %r' % (name, v[:80], back), 'user': u.hex(), 'password': p.hex(), 'finding': None}
+		return None
 	if case[0] == 'seq':
 		try:
 			got = seq_impl(case[1])
@@ -192,6 +214,15 @@ def oracle(case):
 		except Exception as ex:
 			return {'what': '%s: compose/parse raised %s: %s' % (name, exc_name(ex), ex), 'user': u.hex(), 'password': p.hex(), 'finding': None}
 		bad = []
+		# a second element built from the parameters of the first is a value of its own: changing it does not change the first
+		try:
+			e1 = element_cls(name)('Basic', {'username': u, 'password': p})
+			e3 = element_cls('Proxy-Authorization' if name == 'Authorization' else 'Authorization')('Basic', e1.params)
+			e3.params['password'] = p + b'-other'
+			if bytes(e1) != value:
+				bad.append('changing an element built from its parameters changed the element: %r' % bytes(e1)[:80])
+		except Exception as ex:
+			bad.append('copying the parameters raised %s' % exc_name(ex))
 		if back != (u, p) or back2 != (u, p):
 			bad.append('parsed back %r / %r' % (back, back2))
 		expect = b'Basic ' + base64.b64encode(u + b':' + p)
@@ -205,6 +236,8 @@ def oracle(case):
 def nontrivial(case, outs):
 	if case[0] == 'rt':
 		return ('rt', case[1], case[2]) if (outs is None or outs[-1].startswith('ok')) else None
+	if case[0] == 'text':
+		return ('text', case[1], case[2])
 	if case[0] == 'seq':
 		return ('seq', tuple(outs or ()))
 	if case[0] == 'parse':
@@ -220,12 +253,16 @@ def tally(case, res):
 
 
 def describe(case):
+	if case[0] == 'text':
+		return ['text', case[1].encode('utf-8').hex(), case[2].encode('utf-8').hex()]
 	if case[0] == 'seq':
 		return ['seq', [[r, u.hex(), p.hex()] for r, u, p in case[1]]]
 	return [case[0]] + [x.hex() for x in case[1:]]
 
 
 def undescribe(d):
+	if d[0] == 'text':
+		return ('text', bytes.fromhex(d[1]).decode('utf-8'), bytes.fromhex(d[2]).decode('utf-8'))
 	if d[0] == 'seq':
 		return ('seq', tuple((r, bytes.fromhex(u), bytes.fromhex(p)) for r, u, p in d[1]))
 	return tuple([d[0]] + [bytes.fromhex(x) for x in d[1:]])
